@@ -142,6 +142,11 @@ def _apply(prog, eff, f, arg):
         last = str(f[1]).split("::")[-1]
         if last in ("Some", "Ok", "Err"):
             return ('agg', _ADT["Option" if last == "Some" else "Result"], last, (arg,))
+        from .mir import strip_generics
+        path = strip_generics(str(f[1]))
+        if path in prog.adts:
+            # a tuple-struct constructor used as a function: the same aggregate `Ctor(arg)` builds
+            return ('agg', path, last, (arg,))
         return ('call', f[1], (arg,), ())
     return None
 
